@@ -1,5 +1,6 @@
 import PoolModel.Generated.Consts
 import PoolModel.Generated.BatchFacts
+import PoolModel.Float64
 /-!
 # Executable model of the trader-side batch verification (shared by C01, C02, C03)
 
@@ -620,6 +621,20 @@ def parseRPCBatch (m : PrepareMsg) : Except Err Batch :=
       id := m.id, version := m.version, heightHint := UInt32.ofNat m.heightHint, matched := matched,
       clearing := clearing, diffs := m.diffs.map parseDiff,
       execBase := w64 m.execBase, execRate := w64 m.execRate, feeRate := w64 m.feeRate, txOuts := m.txOuts }
+
+/-- Go iterates `prepareMsg.MatchedMarkets` (a map) in an unspecified order; when an order nonce occurs in two
+markets the later write to `b.MatchedOrders[nonce]` wins.  `ord` (market durations, as far as known) is the order of
+this run; markets not listed keep their position after the listed ones. -/
+def reorderMarkets (ord : List Nat) (ms : List MarketRpc) : List MarketRpc :=
+  (ord.filterMap fun d => ms.find? fun m => m.duration == d) ++ ms.filter fun m => !ord.contains m.duration
+
+/-- `FixedRatePremium(rate).LumpSumPremium(amt, dur)` by the exact binary64 model (`PoolModel/Float64.lean`) inside
+its domain (non-negative amount, uint32 rate/duration, result below 2^63); `fallback` elsewhere (Go's float→int
+conversion of such values is implementation specific). -/
+def floatPremium (fallback : Int → Nat → Nat → Int) (amt : Int) (rate dur : Nat) : Int :=
+  if decide (0 ≤ amt) && Pool.Float64.premiumInRange amt.toNat rate dur then
+    (Pool.Float64.premium amt.toNat rate dur : Int)
+  else fallback amt rate dur
 
 /-- Put the entries Go visited first (in that order) in front; the rest keeps its order. -/
 def reorder (visit : List Nonce) (matched : List (Nonce × List Their)) : List (Nonce × List Their) :=
